@@ -1,4 +1,4 @@
-import JunoModel.C05.ProofsPrune4
+import JunoModel.C05.ProofsP6
 /-!
 C05 — property theorems (statements only; proofs are in `Proofs*.lean`).
 
@@ -292,6 +292,212 @@ theorem restart_ok_after_prune (W : Nat) (hW : 0 < W) (hs : List (Op × Fault))
 example : (initFilterP 2 (run 2 .all Node.init
     [(.store b0, .none), (.store b1, .none), (.store b2, .none), (.prune 2, .none)]).disk).map
       (fun r => (r.1.next, r.1.win.lo, r.1.win.has 2 7)) = some (3, 2, true) := by decide
+
+/-! ## The wiring of `blockchain.New`: the floor-aware initialiser by default (round 5)
+
+`blockchain.New` installs `pruner.InitializeRunningEventFilter` (`initFilterP`) as the initialiser
+of the lazily initialised running filter for EVERY node; `execP` / `runP` are the calls wired that
+way (`exec` / `run` above: `core.InitializeRunningEventFilter`, what a node gets with the option
+`WithRunningEventFilterInitializer(core.InitializeRunningEventFilter)`). -/
+
+/-- On every image whose genesis block is retained (and on the empty database) the floor-aware
+initialiser IS the plain one — same filter, same direct window writes. -/
+theorem default_initialiser_is_plain_on_unpruned (W : Nat) (d : Disk)
+    (h : getHeight d ≠ none → (d (.commit 0)).isSome = true) :
+    initFilterP W d = initFilter W d ∧ initNeedsWriteP W d = initNeedsWrite W d :=
+  ⟨initFilterP_of_unpruned W h, initNeedsWriteP_of_unpruned W h⟩
+
+/-- One call of a node built by `blockchain.New`, on any coherent (never-pruned) image, any fault,
+any code variant: exactly the call the theorems above are about. -/
+theorem call_with_default_initialiser (W : Nat) (fx : Fixes) (c : List Block) (n : Node)
+    (hc : Coh c n.disk) (op : Op) (ft : Fault) : execP W fx n op ft = exec W fx n op ft :=
+  execP_eq_exec_of_coh W fx hc op ft
+
+/-- `op_atomic` for the node as `blockchain.New` wires it, from ANY node (pruned or not, good or
+not): every call except prune, every fault — the block buckets are the node's before the call, or
+the whole disk is the after-image. -/
+theorem op_atomic_default_wiring (W : Nat) (fx : Fixes) (n : Node) (op : Op) (ft : Fault)
+    (h : ∀ e, op ≠ .prune e) :
+    (∀ k, IsChainKey k → (execP W fx n op ft).1.disk k = n.disk k) ∨
+    (execP W fx n op ft).1.disk = (execP W fx n op .none).1.disk :=
+  op_atomic_P W fx n op ft h
+
+/-- `crash_consistent` for the node as `blockchain.New` wires it: every history without prune,
+every fault schedule. -/
+theorem crash_consistent_default_wiring (W : Nat) (hW : 0 < W) (hs : List (Op × Fault))
+    (hv : ValidHist W Fixes.all Node.init hs) :
+    runP W Fixes.all Node.init hs = run W Fixes.all Node.init hs ∧
+    ∃ c, Good W c (runP W Fixes.all Node.init hs) := by
+  have h := runP_eq_run W Fixes.all hs Node.init cinv_init hv
+  exact ⟨h, by rw [h]; exact crash_consistent W hW hs hv⟩
+
+/-! ## Histories that CONTAIN prune calls (round 5)
+
+`GoodP W c F n` (ProofsP0): the node's disk is the image of chain `c` pruned below `F` — block
+buckets `PCoh`, persisted windows exactly the complete ones from the floor's window on, snapshot
+sound for retained blocks (`PImg`) —, the in-memory filter is dropped or exact for the retained
+blocks, the head is retained. `GoodP W c 0 n` is `Good W c n`. `ValidHistP`: the inputs — a block
+that extends the head is fresh on the disk AND against the pruned blocks (collision-free hashes:
+`FreshBelow`), the pruner never prunes the head (`e ≤ height`), a revert never removes the oldest
+retained block. -/
+
+/-- `crash_consistent` with prune in the alphabet: for EVERY history over {store or refused offer,
+RevertHead, set-L1-head, snapshot, graceful restart, kill, PruneUpto} of a node built by
+`blockchain.New`, from the empty node, and EVERY fault schedule — failure of any commit (any batch of
+a prune), failure of a lazy initialisation's write, crash after any commit / batch / initialisation
+write — the node ends good for some chain pruned below some floor. -/
+theorem crash_consistent_with_prune (W : Nat) (hW : 0 < W) (hs : List (Op × Fault))
+    (hv : ValidHistP W Fixes.all Node.init [] hs) :
+    ∃ c F, GoodP W c F (runP W Fixes.all Node.init hs) :=
+  goodP_run hW hs Node.init [] [] 0 (goodP_init W hW) (fun _ h => by cases h) hv
+
+/-- One call from a good (possibly pruned) node, any fault: good again; the floor moves only in a
+prune, and then to at most the target (the invariant step). -/
+theorem call_keeps_goodP (W : Nat) (hW : 0 < W) (c : List Block) (F : Nat) (n : Node) (ever : List Block)
+    (hg : GoodP W c F n) (hev : ∀ x ∈ c, x ∈ ever) (op : Op) (ft : Fault)
+    (hv : match op with
+      | .store b => Extends n.disk b → Fresh n.disk b ∧ FreshBelow ever (floorOf n.disk) b
+      | .revert => floorOf n.disk = 0 ∨ ∀ h, getHeight n.disk = some h → floorOf n.disk < h
+      | .prune e => ∀ h, getHeight n.disk = some h → e ≤ h
+      | _ => True) :
+    ∃ c' F', GoodP W c' F' (execP W Fixes.all n op ft).1 ∧ F ≤ F' ∧
+      ((∀ e, op ≠ .prune e) → F' = F) ∧ (∀ e, op = .prune e → F' ≤ max F e) := by
+  obtain ⟨c', F', h1, _, h3, h4, h5⟩ := execP_goodP hW hg hev op ft hv
+  exact ⟨c', F', h1, h3, h4, h5⟩
+
+/-- `restart_ok` with prune in the alphabet: after any such history a new process initialises its
+running filter (floor-aware initialiser) successfully and exactly for the retained blocks. -/
+theorem restart_ok_with_prune (W : Nat) (hW : 0 < W) (hs : List (Op × Fault))
+    (hv : ValidHistP W Fixes.all Node.init [] hs) :
+    ∃ c F f d', PCoh blockHashLag c F (runP W Fixes.all Node.init hs).disk ∧
+      initFilterP W (runP W Fixes.all Node.init hs).disk = some (f, d') ∧ FiltOKP W c F f := by
+  obtain ⟨c, F, hg⟩ := crash_consistent_with_prune W hW hs hv
+  obtain ⟨_, ⟨f, hm, hf⟩, _⟩ := ensureInitP_goodP hW (n := ⟨(runP W Fixes.all Node.init hs).disk, .lazy⟩)
+    ⟨hg.wf, hg.img, trivial, hg.floor⟩
+  cases hi : initFilterP W (runP W Fixes.all Node.init hs).disk with
+  | none => simp [ensureInitG, hi] at hm
+  | some r =>
+    obtain ⟨f', d'⟩ := r
+    simp only [ensureInitG, hi] at hm
+    cases hm
+    exact ⟨c, F, f, d', hg.img.pcoh, rfl, hf⟩
+
+/-- `next_block_storable` with prune in the alphabet: after any such history — live node after a
+failed call or a half-done prune, or restarted — the block the network offers next is stored. -/
+theorem next_block_storable_with_prune (W : Nat) (hW : 0 < W) (hs : List (Op × Fault))
+    (hv : ValidHistP W Fixes.all Node.init [] hs) :
+    ∃ c F, PCoh blockHashLag c F (runP W Fixes.all Node.init hs).disk ∧
+      ∀ b, NextBlockP c (runP W Fixes.all Node.init hs).disk b →
+        (execP W Fixes.all (runP W Fixes.all Node.init hs) (.store b) .none).2 = .ok := by
+  obtain ⟨c, F, hg⟩ := crash_consistent_with_prune W hW hs hv
+  exact ⟨c, F, hg.img.pcoh, fun b hn => (store_ok_of_goodP hW hg hn).1⟩
+
+/-- `memory_tracks_disk` with prune in the alphabet: the in-memory running filter is dropped or
+exact for the retained blocks of the chain the disk holds; never a cached error. -/
+theorem memory_tracks_disk_with_prune (W : Nat) (hW : 0 < W) (hs : List (Op × Fault))
+    (hv : ValidHistP W Fixes.all Node.init [] hs) :
+    ∃ c F, PCoh blockHashLag c F (runP W Fixes.all Node.init hs).disk ∧
+      MemOKP W c F (runP W Fixes.all Node.init hs).mem := by
+  obtain ⟨c, F, hg⟩ := crash_consistent_with_prune W hW hs hv
+  exact ⟨c, F, hg.img.pcoh, hg.mem⟩
+
+def b3 : Block := ⟨3, 4, 3, 14, 13, 14, [5], [103]⟩
+def b4 : Block := ⟨4, 5, 4, 15, 14, 15, [], [104]⟩
+def b4' : Block := ⟨4, 9, 4, 19, 14, 19, [9], [109]⟩
+
+/-- blocks 0..4; a three-batch prune whose second batch fails; kill; the prune again; snapshot;
+RevertHead of block 4 (the new head 3 is the oldest retained block); a replacement block whose
+Store is cut by a crash; graceful restart; a prune with nothing left to do that "crashes". -/
+def hPruned : List (Op × Fault) :=
+  [(.store b0, .none), (.store b1, .none), (.store b2, .none), (.store b3, .none), (.store b4, .none),
+   (.prune 3, .failAt 1), (.kill, .none), (.prune 3, .none), (.snap, .none), (.revert, .none),
+   (.store b4', .crashAfter 0), (.restart, .failAt 0), (.prune 3, .crashAfter 0), (.store b1, .none)]
+
+-- non-vacuity: `hPruned` satisfies the input hypothesis; it ends at height 4 with floor 3
+example : ValidHistP 2 .all Node.init [] hPruned := by
+  simp only [hPruned, ValidHistP, and_true]
+  refine ⟨?_, ?_, ?_, ?_, ?_, ?_, trivial, ?_, trivial, ?_, ?_, trivial, ?_, ?_⟩
+  · intro _; refine ⟨⟨?_, ?_, ?_⟩, ?_⟩ <;> first | decide | (unfold FreshBelow; decide)
+  · intro _; refine ⟨⟨?_, ?_, ?_⟩, ?_⟩ <;> first | decide | (unfold FreshBelow; decide)
+  · intro _; refine ⟨⟨?_, ?_, ?_⟩, ?_⟩ <;> first | decide | (unfold FreshBelow; decide)
+  · intro _; refine ⟨⟨?_, ?_, ?_⟩, ?_⟩ <;> first | decide | (unfold FreshBelow; decide)
+  · intro _; refine ⟨⟨?_, ?_, ?_⟩, ?_⟩ <;> first | decide | (unfold FreshBelow; decide)
+  · exact le_height_of (k := 4) (by decide) (by decide)
+  · exact le_height_of (k := 4) (by decide) (by decide)
+  · right; exact floor_lt_height_of (k := 4) (by decide) (by decide)
+  · intro _; refine ⟨⟨?_, ?_, ?_⟩, ?_⟩ <;> first | decide | (unfold FreshBelow; decide)
+  · exact le_height_of (k := 4) (by decide) (by decide)
+  · intro h; exact absurd h (by unfold Extends; decide)
+
+example : getHeight (runP 2 .all Node.init hPruned).disk = some 4 ∧
+    floorOf (runP 2 .all Node.init hPruned).disk = 3 := by decide
+
+/-! ## The shared in-memory retention floor (`pruner.RetentionFloor`, round 5)
+
+`PNode` = node + the floor its process shares between `Blockchain` (`StateAtBlockNumber` consults
+it instead of probing the database) and the `pruner.Pruner` service. `FloorSafe pn`: every
+historical state the node hands out (`stateServed`) is reconstructible from ITS disk — the oldest
+retained block is at most one above it — and is at most the chain height. -/
+
+/-- A process that starts on ANY image of a pruning node (floor seeded from the database as
+`node.Run` does, or left unseeded: database probe) serves only reconstructible states. -/
+theorem fresh_process_floor_safe (W : Nat) (c : List Block) (F : Nat) (n : Node) (wired : Bool)
+    (hwf : WfChain c) (hp : PImg W blockHashLag c F n.disk) (hF : F ≤ c.length - 1) :
+    FloorSafe ⟨n, freshFloor wired n.disk, wired⟩ :=
+  freshFloor_safe wired hwf hp.pcoh hF
+
+/-- `memory_tracks_disk` for the retention floor, for ANY cut of a prune's batches: after
+`Pruner.onNewL1Head(l1)` (numRetainedBlocks `R`) on any image of a pruning node whose seeded floor
+is safe — the sweep completed, any of its batch commits failed (`failAt k`), or the process died
+after any batch (`crashAfter k`) — the node still serves only states its disk can reconstruct.
+(`pruneUpto` raises the floor to target − 1 BEFORE the first batch.) -/
+theorem floor_tracks_disk_under_prune (W : Nat) (fx : Fixes) (c : List Block) (hwf : WfChain c)
+    (F0 : Nat) (pn : PNode) (hp : PImg W blockHashLag c F0 pn.node.disk) (hF0 : F0 ≤ c.length - 1)
+    (hseed : pn.floor ≠ none) (hs : FloorSafe pn) (l1 R : Nat) (ft : Fault) :
+    FloorSafe (pexec true W fx pn (.l1event l1 R) ft).1 :=
+  l1event_floor_safe fx hwf hp hF0 hseed hs l1 R ft
+
+
+/-- `memory_tracks_disk` for the retention floor along WHOLE histories: every history of calls
+and pruner events (`Pruner.onNewL1Head`) of a process wired as `node.New` does, from the empty
+node, every fault schedule (any cut of any sweep): the node stays good and serves only states its
+disk can reconstruct. -/
+theorem retention_floor_tracks_disk (W : Nat) (hW : 0 < W) (hs : List (POp × Fault))
+    (hv : ValidPHist W Fixes.all PNode.init [] hs) :
+    FloorSafe (prun true W Fixes.all PNode.init hs) ∧
+      ∃ c F, GoodP W c F (prun true W Fixes.all PNode.init hs).node := by
+  obtain ⟨c, F, hi⟩ := pinv_run hW hs PNode.init [] [] 0 (pinv_init W hW) (fun _ h => by cases h) hv
+  exact ⟨floorSafe_of_inv hi, c, F, hi.good⟩
+
+/-- Five blocks on a node wired as `node.New` does, then the pruner is told L1 head 3 (retaining 0
+blocks below it): a three-batch sweep whose THIRD batch fails. -/
+def hFloor : List (POp × Fault) :=
+  [(.call (.store b0), .none), (.call (.store b1), .none), (.call (.store b2), .none),
+   (.call (.store b3), .none), (.call (.store b4), .none), (.l1event 3 0, .failAt 2)]
+
+example : ValidPHist 4 .all PNode.init [] hFloor := by
+  simp only [hFloor, ValidPHist, and_true]
+  refine ⟨?_, ?_, ?_, ?_, ?_, rfl⟩ <;>
+    (intro _; refine ⟨⟨?_, ?_, ?_⟩, ?_⟩ <;> first | decide | (unfold FreshBelow; decide))
+
+-- non-vacuity of `floor_tracks_disk_under_prune` and what it excludes: with the floor raised
+-- BEFORE the sweep (the code) the state at block 0 is refused after the failed sweep; were it
+-- raised only after a successful sweep, the node would hand out the state at block 0 although
+-- the disk's oldest retained block is 2 (history entries of block 1 deleted).
+theorem floor_raised_before_sweep_refuses_pruned_state :
+    let pn := prun true 4 .all PNode.init hFloor
+    floorOf pn.node.disk = 2 ∧ pn.floor = some 2 ∧ stateServed pn.floor pn.node.disk 0 = false ∧
+      stateServed pn.floor pn.node.disk 2 = true := by decide
+
+theorem floor_raised_after_sweep_would_serve_pruned_state :
+    let pn := prun false 4 .all PNode.init hFloor
+    floorOf pn.node.disk = 2 ∧ pn.floor = some 0 ∧ stateServed pn.floor pn.node.disk 0 = true ∧
+      ¬ FloorSafe pn := by
+  refine ⟨by decide, by decide, by decide, ?_⟩
+  intro h
+  have := (h 0 (by decide)).1
+  revert this
+  decide
 
 /-! ## Regression witnesses for defects that are fixed in /repo (code variants that no longer exist)
 
